@@ -396,6 +396,8 @@ def job(j):
         return layer1_job(j[1:])
     if tag == "l2":
         return layer2_job(j[1:])
+    if tag == "l2b":
+        return layer2b_job(j[1:])
     return layer3_job(j[1:])
 
 
@@ -441,9 +443,13 @@ def main():
         tasks.append((o, [("l3", t, max_rel) for i, t in enumerate(texts) if i % g == 0], 800))
     # one pool for all three layers; the kernel jobs are few but long, so each is its own unit and starts first
     slow_first = sorted(l2, key=lambda x: 0 if (x[0] == "NOT" and x[2]) else 1)
+    l2b = context_skeletons(both if tier == "quick" else [(a, b) for a in ops for b in ops], tier)
+    if tier == "quick":
+        l2b = [x for x in l2b if not x[1] or x[2] == 0][::3]
+    tasks.insert(0, (gasol.optset(), [("l2b",) + x for x in l2b], 12))
     tasks.insert(0, (gasol.optset(), [("l1",) + x for x in l1] + [("l2",) + x for x in slow_first], 1))
     allres, st3 = pool.run(tasks, "checks.c03:job", job_timeout=600)
-    r12 = [(o, j, r) for o, j, r in allres if j[0] in ("l1", "l2")]
+    r12 = [(o, j, r) for o, j, r in allres if j[0] in ("l1", "l2", "l2b")]
     r3 = [(o, j[1:], r) for o, j, r in allres if j[0] == "l3"]
     for _, j, r in r12:
         if "obligations" not in r:
@@ -458,7 +464,7 @@ def main():
         for b in r["bad"]:
             rep.violation(b["key"], b["what"], b)
         for inc in r["inconclusive"]:
-            inconclusive.append({"job": list(j), **inc})
+            inconclusive.append({"job": repr(j)[:200], "why": inc} if isinstance(inc, str) else {"job": repr(j)[:200], **inc})
     stats.merge(st3)
     programs = rule_fired = 0
     verdicts = {}
@@ -496,9 +502,10 @@ def main():
         "solver": stats.as_dict(),
         "functions": ["gasol_optimization.evaluate_expression (AST)", "gasol_optimization.evaluate_expression_ter (AST)",
                       "gasol_optimization.apply_transform (AST, incl. utils.all_integers/get_num_bytes_int)",
+                      "gasol_optimization.apply_cond_transformation (AST) on instruction lists built from pair/chain skeletons with symbolic constants",
                       "front-end with rules on/off (native)"],
         "bounds": "operands: all of [0,2^256) (kernel, local rules); programs: F-rule singles/pairs/chains + F-exh (tier %s); "
-                  "apply_cond_transformation is covered at block level only" % tier,
+                  "context rules: every (related-opcode pair) skeleton x wiring x entry instruction with symbolic constants" % tier,
         "explanation": "programs = sub-block specifications produced with rules enabled and decided against the block; "
                        "disagreements_checked = those on which at least one rule fired; kernel = symbolic execution of the "
                        "source AST, one solver query per path",
@@ -506,6 +513,290 @@ def main():
     rep.assumptions = ["integer model of vlib.pysym: %d-bit signed bit-vectors with explicit no-overflow obligations" % P.WIDTH,
                        "pow(a,b,2**256) is taken as the definition of EXP", "offsets/lengths < 2^32 (block level)"]
     sys.exit(rep.finish())
+
+
+
+
+# ------------------------------------------------------------------------------------------------ layer 2b (context rules)
+
+WRAPPER_SRC = '''
+def __verif_apply_cond(instr_index, user_def_instrs, tstack):
+    r = apply_cond_transformation(user_def_instrs[instr_index], user_def_instrs, tstack)
+    if r[0]:
+        for b in r[1]:
+            idx = user_def_instrs.index(b)
+            user_def_instrs.pop(idx)
+    return (r[0], user_def_instrs, tstack)
+'''
+
+OPCODE_HEX = {"ADD": "01", "MUL": "02", "SUB": "03", "DIV": "04", "SDIV": "05", "MOD": "06", "SMOD": "07", "EXP": "0a", "LT": "10",
+              "GT": "11", "SLT": "12", "SGT": "13", "EQ": "14", "ISZERO": "15", "AND": "16", "OR": "17", "XOR": "18", "NOT": "19",
+              "BYTE": "1a", "SHL": "1b", "SHR": "1c", "SAR": "1d", "ADDRESS": "30", "BALANCE": "31", "ORIGIN": "32", "CALLER": "33",
+              "COINBASE": "41", "SELFBALANCE": "47"}
+
+
+def build_instrs(expr):
+    """expr: nested tuples (op, args...) with leaves 'X','Y','Z' (stack variables) or 'c','d' (symbolic constants).
+    returns (instruction dicts, root variable, symbolic constants dict)"""
+    instrs = []
+    consts = {}
+    counter = [0]
+    cache = {}
+
+    def go(e):
+        if isinstance(e, str):
+            if e in ("X", "Y", "Z"):
+                return "s(%d)" % ("XYZ".index(e))
+            if e not in consts:
+                consts[e] = word("k_" + e)
+            return P.SymInt(widen(consts[e]))
+        key = repr(e)
+        if key in cache:
+            return cache[key]
+        args = [go(a) for a in e[1:]]
+        counter[0] += 1
+        out = "s(%d)" % (10 + counter[0])
+        instrs.append({"id": "%s_%d" % (e[0], counter[0]), "opcode": OPCODE_HEX.get(e[0], "00"), "disasm": e[0], "inpt_sk": args,
+                       "outpt_sk": [out], "gas": 3, "commutative": e[0] in ("ADD", "MUL", "EQ", "AND", "OR", "XOR"), "storage": False,
+                       "size": 1, "push": False})
+        cache[key] = out
+        return out
+
+    root = go(expr)
+    return instrs, root, consts
+
+
+def value_model(instrs, consts_by_term):
+    """{var: BV256 term} for the variables defined by an instruction list (inputs s(0..2) are free words)"""
+    ctx = E.Ctx(abstract=False)
+    ops = E.Ops(ctx)
+    vals = {"s(%d)" % i: word("in%d" % i) for i in range(3)}
+    defs = {}
+    for ins in instrs:
+        for o in ins.get("outpt_sk", []):
+            defs[o] = ins
+
+    def val(v, depth=0):
+        if depth > 40:
+            raise ValueError("cyclic definition")
+        if isinstance(v, P.SymInt):
+            return z3.Extract(255, 0, v.t), z3.And(v.t >= P.bvc(0), v.t < P.bvc(1 << 256))
+        if isinstance(v, bool):
+            raise ValueError("boolean operand")
+        if isinstance(v, int):
+            return E.BV(v), z3.BoolVal(0 <= v < (1 << 256))
+        if not isinstance(v, str):
+            raise ValueError("operand %r" % (v,))
+        if v in vals:
+            return vals[v], z3.BoolVal(True)
+        if v not in defs:
+            raise ValueError("dangling variable %s" % v)
+        ins = defs[v]
+        d = ins["disasm"]
+        args = [val(a, depth + 1) for a in ins["inpt_sk"]]
+        ok = z3.And(*[a[1] for a in args]) if args else z3.BoolVal(True)
+        a = [x[0] for x in args]
+        if d == "ISZERO":
+            t = E.b2w(a[0] == E.BV(0))
+        elif d == "NOT":
+            t = ~a[0]
+        elif d in E.NULLARY_ENV:
+            t = ctx.const((d,))
+        elif d == "SELFBALANCE":
+            t = ctx.func("BALANCE!0", 1)(ctx.const(("ADDRESS",)))
+        elif d == "BALANCE":
+            t = ctx.func("BALANCE!0", 1)(a[0])
+        elif len(a) == 2:
+            t = ops.binop(d, a[0], a[1])
+        else:
+            raise ValueError("no semantics for %s" % d)
+        vals[v] = t
+        return t, ok
+
+    return val, ctx
+
+
+def layer2b_job(j):
+    expr, inner_on_stack, entry = j
+    gasol.import_repo()
+    import sfs_generator.gasol_optimization as G
+    merged, _ = load_ast()
+    wrapper = ast.parse(WRAPPER_SRC).body
+    tree = ast.Module(body=merged.body + wrapper, type_ignores=[])
+    out = {"obligations": 0, "discharged": 0, "bad": [], "inconclusive": [], "paths": 0, "fired": 0, "job": repr(j)}
+    g = native_globals(False)
+    instrs, root, consts = build_instrs(expr)
+    if entry >= len(instrs):
+        return out
+    tstack = [root] + (["s(11)"] if inner_on_stack and len(instrs) > 1 else []) + ["s(0)", "s(1)"]
+    tstack = [t for t in tstack if isinstance(t, str)]
+    before_val, ctx0 = value_model(copy_instrs(instrs), consts)
+    try:
+        before = [before_val(v) for v in tstack]
+    except ValueError as e:
+        out["inconclusive"].append("before: %s" % e)
+        return out
+    ass = list(ctx0.assumptions)
+    genv = {k: g[k] for k in ("discount_op", "saved_push", "gas_saved_op", "rule", "user_def_counter", "s_counter", "u_counter", "debug") if k in g}
+    # the context rules run after the local rules have reached their fix-point: a list on which a local rule still
+    # fires is not a reachable pre-state, so "no local rule fires" is assumed (the firing conditions come from the
+    # symbolic execution of apply_transform itself)
+    try:
+        for ins in instrs:
+            exl = P.Executor(tree, g, loop_bound=40, assumptions=ass)
+            fires = []
+            for pc_l, outc_l, _ in exl.run("apply_transform", [dict(ins, inpt_sk=list(ins["inpt_sk"]))], dict(genv)):
+                v_l = outc_l[1] if outc_l[0] == "return" else None
+                if outc_l[0] == "return" and not (v_l is None or (isinstance(v_l, int) and not isinstance(v_l, bool) and v_l == -1)):
+                    fires.append(z3.And(*pc_l) if pc_l else z3.BoolVal(True))
+            if fires:
+                ass.append(z3.Not(z3.Or(*fires)))
+    except P.Unmodelled as e:
+        out["inconclusive"].append("precondition unmodelled: %s" % e)
+        return out
+    chk = z3.Solver()
+    chk.set("timeout", 5000)
+    chk.add(*ass)
+    if str(chk.check()) == "unsat":
+        out["preempted"] = True          # a local rule always rewrites this shape first
+        return out
+    ex = P.Executor(tree, g, loop_bound=40, assumptions=ass)
+    genv.setdefault("user_def_counter", {})
+    genv.setdefault("debug", False)
+    try:
+        paths = ex.run("__verif_apply_cond", [entry, instrs, tstack], genv)
+    except P.Unmodelled as e:
+        out["inconclusive"].append("unmodelled: %s" % e)
+        return out
+    for pc, outcome, genv_after in paths:
+        out["paths"] += 1
+        if outcome[0] == "raise":
+            out["obligations"] += 1
+            verdict, model = solve(ass + pc, 10000, STATS, "c03:l2b:raise")
+            if verdict == "sat":
+                out["bad"].append({"key": "context-rule:%s:raises:%s" % (show_expr(expr), outcome[1]),
+                                   "what": "apply_cond_transformation raises %s on %s (entry %d)" % (outcome[1], show_expr(expr), entry)})
+            elif verdict == "unsat":
+                out["discharged"] += 1
+            continue
+        fired, new_instrs, new_tstack = outcome[1]
+        if not (fired if not isinstance(fired, P.SymBool) else True):
+            continue
+        out["fired"] += 1
+        rule = genv_after.get("rule", "?")
+        try:
+            after_val, ctx1 = value_model(new_instrs, consts)
+            if len(new_tstack) != len(tstack):
+                raise ValueError("target stack length changed")
+            after = [after_val(v) for v in new_tstack]
+            # surviving variables keep their value
+            extra = []
+            old_defs = {o for i in instrs for o in i["outpt_sk"]}
+            for ins in new_instrs:
+                for o in ins.get("outpt_sk", []):
+                    if o in old_defs:
+                        extra.append((before_val(o), after_val(o), "variable " + o))
+        except ValueError as e:
+            out["obligations"] += 1
+            verdict, model = solve(ass + pc, 10000, STATS, "c03:l2b:shape")
+            if verdict == "sat":
+                out["bad"].append({"key": "context-rule:%s:%s:malformed" % (show_expr(expr), rule),
+                                   "what": "rule %s on %s leaves a malformed instruction list: %s" % (rule, show_expr(expr), e)})
+            else:
+                out["discharged"] += 1
+            continue
+        pairs = [(b, a, "target stack position %d" % i) for i, (b, a) in enumerate(zip(before, after))] + extra
+        for (bt, bok), (at, aok), label in pairs:
+            out["obligations"] += 1
+            side = ass + pc + ctx0.side + ctx1.side + ctx0.assumptions + ctx1.assumptions
+            goal = side + [z3.Or(bt != at, z3.Not(aok))]
+            verdict, model = solve(goal, 6000, STATS, "c03:l2b:value", portfolio=False)
+            if verdict == "unknown":
+                # MUL/DIV by 1<<c against shifts: decide by a 257-way case split on each symbolic constant
+                cands = [("shift", t) for t in (ctx1.shift_amounts + ctx0.shift_amounts)] + list(consts.items()) + \
+                    [("in%d" % k, word("in%d" % k)) for k in range(3)]
+                for cname, cterm in cands:
+                    allunsat = True
+                    for case in [cterm == E.BV(k) for k in range(256)] + [z3.UGE(cterm, E.BV(256))]:
+                        v2, m2 = solve(goal + [case], 3000, STATS, "c03:l2b:case", portfolio=False)
+                        if v2 == "sat":
+                            verdict, model, allunsat = "sat", m2, False
+                            break
+                        if v2 != "unsat":
+                            allunsat = False
+                            break
+                    if allunsat:
+                        verdict = "unsat"
+                    if verdict != "unknown":
+                        break
+            if verdict == "unsat":
+                out["discharged"] += 1
+            elif verdict == "sat":
+                asg = {str(d): model[d].as_long() for d in model.decls() if d.name().startswith(("in", "k_")) and model[d] is not None and hasattr(model[d], "as_long")}
+                out["bad"].append({"key": "context-rule:%s:%s" % (show_expr(expr), rule), "operands": asg,
+                                   "what": "rule %s on %s changes the value of %s (operands %s)" % (rule, show_expr(expr), label, {k: hex(v) for k, v in asg.items()})})
+                break
+            else:
+                out["inconclusive"].append("solver %s on %s / %s" % (verdict, show_expr(expr), rule))
+    out["stats"] = STATS.as_dict()
+    STATS.reset()
+    return out
+
+
+def copy_instrs(instrs):
+    return [dict(i, inpt_sk=list(i["inpt_sk"]), outpt_sk=list(i["outpt_sk"])) for i in instrs]
+
+
+def show_expr(e):
+    if isinstance(e, str):
+        return e
+    return "%s(%s)" % (e[0], ",".join(show_expr(a) for a in e[1:]))
+
+
+def context_skeletons(pairs, tier):
+    out = []
+    leaves = ["X", "Y", "c"]
+    for outer, inner in pairs:
+        ao, ai = F._arity(outer), F._arity(inner)
+        if ao in (None, 0) or ai is None:
+            continue
+        if ai == 0:
+            inners = [(inner,)]
+        elif ai == 1:
+            inners = [(inner, "X"), (inner, "c")]
+        elif ai == 2:
+            inners = [(inner, "X", "Y"), (inner, "X", "c"), (inner, "c", "X"), (inner, "X", "X")]
+        else:
+            continue
+        for ie in inners:
+            if ao == 1:
+                exprs = [(outer, ie)]
+            elif ao == 2:
+                exprs = []
+                for o in ["X", "Y", "Z", "d"]:
+                    exprs.append((outer, ie, o))
+                    exprs.append((outer, o, ie))
+                exprs.append((outer, ie, ie))
+            else:
+                continue
+            for e in exprs:
+                for on_stack in (False, True):
+                    for entry in (0, 1):
+                        out.append((e, on_stack, entry))
+    # ISZERO towers
+    for base in [("LT", "X", "Y"), ("GT", "X", "Y"), ("EQ", "X", "Y"), ("SLT", "X", "Y"), ("SGT", "X", "Y"), ("GT", "X", "c"), ("LT", "c", "X"),
+                 ("EQ", "X", "c"), ("ISZERO", "X"), ("XOR", "X", "Y"), ("SUB", "X", "Y")]:
+        e = base
+        for k in range(1, 4):
+            e = ("ISZERO", e)
+            for entry in range(0, k + 1):
+                out.append((e, False, entry))
+    seen, uniq = set(), []
+    for x in out:
+        if repr(x) not in seen:
+            seen.add(repr(x))
+            uniq.append(x)
+    return uniq
 
 
 if __name__ == "__main__":
